@@ -228,7 +228,54 @@ let scope_of (input : string) : scope =
     | _ -> Outside
   with _ -> Outside
 
+(* Independent oracle for single-substitution lookups run through gsub_apply_lookup: which glyphs take part is
+   decided by the declarative skip_spec (Model/LayoutSpec.v), not by the model's match_glyph.  This is what
+   makes the known deviation F12 (mark attachment type combined with a mark filtering set) observable: there
+   the model follows the implementation, the specification does not.  Returns Some reason on a deviation. *)
+let spec_single_check (input : string) (impl : string) : string option =
+  try
+    let (_, tree) = split_input input in
+    match tree with
+    | L [gd; lay; L [I k; I li; I tg; _alt; I start; I length]; L gl] when zi k = 1 && starts_with "ok:" impl ->
+      let gd = gdef_ gd in
+      let lay = layout_parse (layout_ lay) in
+      let gs = List.map glyph_ gl in
+      (match lay.lt_lookups with
+       | Some lks ->
+         (match List.nth_opt lks (zi li) with
+          | Some { lk_flag = f; lk_mfs = mfs; lk_body = LSingle subs } ->
+            let s = zi start and l = zi length in
+            if s < 0 || l < 0 || s + l > List.length gs then None else begin
+              let body = String.sub impl 3 (String.length impl - 3) in
+              let body = (match String.index_opt body '|' with Some k -> String.sub body 0 k | None -> body) in
+              let out = if body = "" then [] else split_on ',' body in
+              if List.length out <> List.length gs then None else begin
+                let res = ref None in
+                List.iteri (fun k (g, o) ->
+                    if !res = None && k >= s && k < s + l then begin
+                      let expected =
+                        if skip_spec f mfs gd g.g_id then Some g.g_id
+                        else (match singlesubst subs tg g with Ok g' -> Some g'.g_id | _ -> None) in
+                      let got = List.hd (split_on ':' o) in
+                      match expected with
+                      | Some e when z_to_string e <> got ->
+                        res := Some (Printf.sprintf "glyph %d is %s, the lookup-flag rule of the specification gives %s (flag %s%s)"
+                                       k got (z_to_string e) (z_to_string f)
+                                       (if flag_combines_attach_and_set f mfs then ": mark attachment type and mark filtering set combined" else ""))
+                      | _ -> ()
+                    end) (List.combine gs out);
+                !res
+              end
+            end
+          | _ -> None)
+       | None -> None)
+    | _ -> None
+  with _ -> None
+
 let judge (input : string) (impl : string) (model : string) : verdict =
+  match spec_single_check input impl with
+  | Some why -> Violation ("skip-spec", why)
+  | None ->
   if impl = model then begin
     if impl = "panic" then
       (match scope_of input with
